@@ -90,6 +90,14 @@ def run_capped(h, lines, max_crashes=6):
 
 
 # ------------------------------------------------------------------------------------------------ tests
+WS = [b' ', b'\t', b'\n', b'\r', b'\r\n', b'  ', b' \n ', b'\n\n\t', b'\t \r\n ', b'\n    ']
+
+
+def ws(rng, empty_ok=True):
+    """JSON whitespace: blank, tab, CR, LF, CRLF, several; possibly none"""
+    return b'' if empty_ok and rng.random() < 0.25 else rng.choice(WS)
+
+
 def key_text(name, mode):
     """bytes of the key as written, and the offset of the first name byte in it"""
     if mode == 'q': return b'"' + name + b'":', 1
@@ -140,6 +148,16 @@ def field_tests(ctx, sch, rng, per_name, tests):
                 for mode in ('q', 'u0'):
                     kt, off = key_text(name, mode)
                     add('hibyte-tail', b'{' + kt + b'"\xc3\xa9"}', 0, ('OK', {f['id']: ('present',)}), 1 + off, mode, 2 * f['id'])
+        # ---- whitespace (blank, tab, CR, LF, CRLF, several, none) before / after the name, the colon and the value
+        plain = [(n, fv) for n, fv in sorted(byname.items()) if not fv[1] and not fv[0].get('is_union')]
+        if len(plain) > 10: plain = rng.sample(plain, 10)
+        for name, (f, _) in plain:
+            val, pre, want = U.value_for(sch, tdecl, f)
+            for quoted in (True, False):
+                w1, w2, w3, w4 = ws(rng), ws(rng), ws(rng), ws(rng)
+                key = (b'"' + name + b'"') if quoted else name
+                inner = b'{' + w1 + key + w2 + b':' + w3 + val + w4 + b'}'
+                add('ws-exact', inner, 0, ('OK', want), 1 + len(w1) + (1 if quoted else 0), 'q' if quoted else ('u1' if w2 else 'u0'), 2 * f['id'])
         # ---- the text ends right after / inside a declared name (end - buf <= pos: no byte may be read at buf[pos])
         for name in sorted(declared):
             for mode in ('q', 'u0'):
@@ -277,18 +295,74 @@ def enum_tests(ctx, sch, rng, budget, tests):
             neg = r[1] < 0
         else:
             want, neg = ('ERR', None), False
-        for vmode in (('q', 'u}', 'u,', 'u ') if rng.random() < 0.5 else ('q', rng.choice(['u}', 'u,', 'u ']))):
+        vmodes = ('q', 'u}', 'u,', 'u ') if rng.random() < 0.5 else ('q', rng.choice(['u}', 'u,', 'u ']))
+        if rng.random() < 0.6: vmodes += (rng.choice(['uw}', 'uw,', 'qw']),)
+        for vmode in vmodes:
             kt = b'"' + f['name'].encode() + b'":'
-            if vmode == 'q': inner = b'{' + kt + b'"' + text.encode() + b'"}'; voff = 1 + len(kt) + 1
+            if vmode in ('uw}', 'uw,', 'qw'):
+                # whitespace (tab, CR, LF, CRLF, several ...) around the colon, before the symbol and between symbol and separator
+                kt = b'"' + f['name'].encode() + b'"' + ws(rng) + b':' + ws(rng)
+                after = ws(rng, empty_ok=False)
+                if vmode == 'qw': inner = b'{' + kt + b'"' + text.encode() + b'"' + after + b'}'; voff = 1 + len(kt) + 1
+                elif vmode == 'uw}': inner = b'{' + kt + text.encode() + after + b'}'; voff = 1 + len(kt)
+                else: inner = b'{' + kt + text.encode() + after + b',' + ws(rng) + b'"' + f['name'].encode() + b'_zz_unknown":1}'; voff = 1 + len(kt)
+            elif vmode == 'q': inner = b'{' + kt + b'"' + text.encode() + b'"}'; voff = 1 + len(kt) + 1
             elif vmode == 'u}': inner = b'{' + kt + text.encode() + b'}'; voff = 1 + len(kt)
             elif vmode == 'u ': inner = b'{' + kt + text.encode() + b' }'; voff = 1 + len(kt)
             else:
                 w2 = dict(want[1]) if want[0] == 'OK' else None
                 inner = b'{' + kt + text.encode() + b',"' + f['name'].encode() + b'_zz_unknown":1}'; voff = 1 + len(kt)
                 # the second key is unknown: run with skip_unknown
-            tests.append({'klass': 'enum-' + form + ('-neg' if neg else ''), 'sch': sch, 'flags': 2 | (1 if vmode == 'u,' else 0), 'path': U.path_ids(hops),
+            tests.append({'klass': 'enum-' + form + ('-neg' if neg else ''), 'sch': sch, 'flags': 2 | (1 if vmode in ('u,', 'uw,') else 0), 'path': U.path_ids(hops),
                           'json': U.wrap(hops, inner), 'want': want, 'mode': vmode, 'fn': fn, 'inner': inner, 'key_off': voff,
                           'wantkey': None, 'enum': (tdecl, f), 'note': text})
+
+
+def enum_ws_tests(ctx, sch, rng, budget, tests):
+    """Union `_type` fields and enum vectors: symbols bare / Type. / Ns.Type., quoted and unquoted, with every kind of
+    whitespace between the symbol and the following `,` `]` `}` (and before it)."""
+    paths = U.table_paths(sch)
+    made = 0
+    for fn, d in sorted(sch.dicts.items()):
+        if d['kind'] != 'table' or T3.cname(d['decl']) not in paths: continue
+        tdecl, hops = d['decl'], paths[T3.cname(d['decl'])]
+        for f in tdecl['fields']:
+            if 'deprecated' in f['attrs'] or made >= budget: continue
+            k, info = U.field_kind(sch, tdecl, f)
+            if k not in ('union', 'enum') or (k == 'enum' and not f['vec']): continue
+            q = '.'.join(info['ns'] + [info['name']])
+            def spell(sym):
+                opts = [sym, q + '.' + sym]
+                if info['ns'] == tdecl['ns']: opts.append(info['name'] + '.' + sym)
+                return rng.choice(opts).encode()
+            for quoted in (False, False, True):
+                qt = b'"' if quoted else b''
+                name = f['name'].encode()
+                if k == 'union' and not f['vec']:
+                    m = [s for s, _ in info['syms'] if s != 'NONE'][0]
+                    md = T3.resolve(sch.schema, info['ns'], m)
+                    val = b'{}' if md and md['kind'] in ('table', 'struct') else b'"u"'
+                    inner = (b'{' + ws(rng) + b'"' + name + b'_type"' + ws(rng) + b':' + ws(rng) + qt + spell(m) + qt + ws(rng, quoted) + b',' + ws(rng)
+                             + b'"' + name + b'":' + val + ws(rng) + b'}')
+                    want = ('OK', {f['id']: ('present',), f['id'] - 1: ('present',)})
+                    klass = 'enum-ws-union-type'
+                elif k == 'union':
+                    m = [s for s, _ in info['syms'] if s != 'NONE'][0]
+                    inner = (b'{"' + name + b'_type":[' + ws(rng) + qt + spell(m) + qt + ws(rng, quoted) + b',' + ws(rng) + qt + spell(m) + qt + ws(rng, quoted) + b']'
+                             + ws(rng) + b',"' + name + b'":[{},{}]}')
+                    md = T3.resolve(sch.schema, info['ns'], m)
+                    if not (md and md['kind'] == 'table'): continue
+                    want = ('OK', {f['id']: ('present',), f['id'] - 1: ('present',)})
+                    klass = 'enum-ws-union-type-vector'
+                else:
+                    els = [s for s, _ in rng.sample(info['syms'], min(len(info['syms']), rng.choice([1, 2, 3])))]
+                    inner = b'{"' + name + b'":[' + b','.join(ws(rng) + qt + spell(e) + qt + ws(rng, quoted) for e in els) + b']' + ws(rng) + b'}'
+                    want = ('OK', {f['id']: ('present',)})
+                    klass = 'enum-ws-vector'
+                tests.append({'klass': klass, 'sch': sch, 'flags': 0, 'path': U.path_ids(hops), 'json': U.wrap(hops, inner), 'want': want,
+                              'mode': 'qw' if quoted else 'uw', 'fn': fn, 'inner': inner, 'key_off': 0, 'wantkey': None, 'enum': (tdecl, f),
+                              'note': inner.decode('latin-1'), 'nomodel': True})
+                made += 1
 
 
 def enum_list_tests(ctx, sch, rng, budget, tests):
@@ -438,6 +512,7 @@ def run(ctx):
         field_tests(ctx, s, rng, per_name if s.origin != 'corpus' or ctx.thorough else 4, tests)
         enum_tests(ctx, s, rng, 3000 if ctx.thorough else 220, tests)
         enum_list_tests(ctx, s, rng, 1500 if ctx.thorough else 150, tests)
+        for _ in range(6 if ctx.thorough else 1): enum_ws_tests(ctx, s, rng, 400 if ctx.thorough else 60, tests)
     ctx.log('%d schemas, %d cases' % (len(allsch), len(tests)))
 
     # implementation
@@ -545,7 +620,7 @@ def model_stage(ctx, allsch, tests):
     # enum value chain: enum parser of the field's own enum, then local scope, then global scope
     et = [t for t in tests if 'enum' in t and t['sch'].entries is not None and not t.get('nomodel')]
     state = {}
-    def cm(t): return 'constq' if t['mode'] == 'q' else 'constu'
+    def cm(t): return 'constq' if t['mode'] in ('q', 'qw') else 'constu'
     q1 = []
     for t in et:
         sch, (tdecl, f) = t['sch'], t['enum']
